@@ -29,6 +29,8 @@ WORDS_U = ["%%", "%%%x", "%", "#2020", "#12", "#100x", "der", "Hund", "bellt", "
            "sevench", "eightchr", "fifteen_chars__", "sixteen_chars___", "twentythree_characters_", "twentyfour_characters___",
            "Donaudampfschifffahrtsgesellschaft"]
 WORDS_X = WORDS_U + ["日本", "ż"]
+# bracket characters and their escapes as words: every format other than the plain bracket format carries them as they are
+BRACKET_WORDS = ["(", ")", "[", "]", "{", "(s)he", ":-)", "-LRB-", "-RSB-"]
 
 
 def mk_corpus(rng, cont, words):
@@ -95,6 +97,11 @@ def one(rng):
     senc = rng.choice(["utf-8", "utf-8", "latin-1", "utf-16"])
     denc = rng.choice(["utf-8", "utf-8", "latin-1", "utf-16"])
     words = WORDS_U if ("latin-1" in (senc, denc)) else WORDS_X
+    if "brackets" not in (F, G) and rng.random() < 0.3:
+        # (the plain bracket format replaces bracket characters in tokens for good - LRB, RRB ... -, which C02 covers; the
+        # other formats carry them.  The discobracket format has no escaping: its sentence part is cut at every bracket character, so it carries a
+        # bracket as a word of its own but not a word with a bracket inside - DESIGN section 8)
+        words = words + (["(", ")", "-LRB-", "-RSB-"] if "discobrackets" in (F, G) else BRACKET_WORDS)
     if "export" not in (F, G):
         # space characters that are not in string.whitespace are ordinary token characters in the bracket formats and in
         # TIGER-XML (the export format, split with str.split(), cannot carry them)
